@@ -617,6 +617,13 @@ def classify_finding(fid, msg, cmpnode, src, flag):
     """known-finding key of a refuted in-process finding.  Inside the domain of a theorem (outOfTypeRange_sound:
     annOK, cmpSafe, vtOK; bitand_compare_sound: `&`, Known value on the right, annOK, cmpSafe) a refutation is never a
     known class."""
+    def closed(n):
+        return n.kind != "V" and all(closed(k) for k in n.kids)
+    def wraps(n):
+        return (n.kind == "B" and n.what in ("add", "sub", "mul") and n.vt.startswith("u")) or any(wraps(k) for k in n.kids)
+    if any(k.kind != "L" and closed(k) and wraps(k) for k in cmpnode.kids):
+        # the Known value of an unsigned constant expression is folded in 64 bits without wrap-around (C01 F5)
+        return "F03f:constant-folded-without-unsigned-wrap"
     if fid == "compareValueOutOfTypeRangeError":
         return "F03e:compareValueOutOfTypeRange-inexact-comparison" if flag[2] == "F" else None
     if fid == "comparisonError":
@@ -1180,6 +1187,8 @@ def run_cli(ctx, res, n_funcs, n_inputs, corpus, lang="c"):
         if n is None:
             res.oblig("cli-finding-location", False, "machinery", "no condition token at %d:%d for %s: %s\n%s" % (ln, col, fid, msg, lines[ln - 1]))
             continue
+        if n.kind == "lit" and n.parent is not None and n.parent.kind == "un" and n.parent.op == "neg":
+            n = n.parent      # `-` followed by a number is one token for cppcheck
         target = n
         if cl[0] == "parent":
             target = n.parent
@@ -1360,6 +1369,7 @@ def classify_cli(cl, f, lines):
 
 THEOREMS = ["Cppcheck.CondExpr.same_sound", "Cppcheck.CondExpr.same_sound_sim", "Cppcheck.CondExpr.same_sound_counterexample",
             "Cppcheck.CondExpr.opposite_sound", "Cppcheck.CondExpr.opposite_not_sound", "Cppcheck.CondExpr.opposite_sound_counterexample",
+            "Cppcheck.CondExpr.multiCondition_opposite_sound", "Cppcheck.CondExpr.multiCondition_same_sound",
             "Cppcheck.CondExpr.outOfTypeRange_table_sound", "Cppcheck.CondExpr.outOfTypeRange_interval_sound",
             "Cppcheck.CondExpr.outOfTypeRange_sound", "Cppcheck.CondExpr.outOfTypeRange_counterexample",
             "Cppcheck.CondExpr.bitand_compare_table_sound", "Cppcheck.CondExpr.bitor_compare_table_sound",
@@ -1381,11 +1391,15 @@ def run(ctx, res):
     t1 = time.time()
     quick = ctx.tier != "thorough"
     corpus = load_corpus()
-    run_inprocess(ctx, res, 300 if quick else 8000, 32 if quick else 40, corpus.get("inprocess", []))
+    run_inprocess(ctx, res, 250 if quick else 8000, 32 if quick else 40, corpus.get("inprocess", []))
     t2 = time.time()
-    run_cli(ctx, res, 50 if quick else 1500, 24 if quick else 32, corpus.get("cli", []), "c")
+    # batches keep the instrumented translation units small (gcc's time and memory grow faster than linearly)
+    run_cli(ctx, res, 40 if quick else 250, 24 if quick else 32, corpus.get("cli", []), "c")
     if not quick:
-        run_cli(ctx, res, 500, 32, [], "cpp")
+        for _ in range(4):
+            run_cli(ctx, res, 250, 32, [], "c")
+        for _ in range(2):
+            run_cli(ctx, res, 250, 32, [], "cpp")
     t3 = time.time()
     res.extra["phase_s"] = dict(lean=round(t1 - t0, 1), inprocess=round(t2 - t1, 1), cli=round(t3 - t2, 1))
 
